@@ -385,7 +385,7 @@ func checkC03(c *Ctx, r *Report) {
 	checkSelectorMembership(c, r, "C03-R5")
 
 	// ---------- R6 / R8 (shared with C04) ----------
-	r.WithAlias(map[string]string{"C04-R5": "C03-R6", "C04-R2": "C03-R8", "C04-R12": "C03-R15", "C04-R8": "C03-R19"}, func() { checkC04(c, r) })
+	r.WithAlias(map[string]string{"C04-R5": "C03-R6", "C04-R2": "C03-R8", "C04-R12": "C03-R15", "C04-R8": "C03-R19", "C04-R13": "C03-R24"}, func() { checkC04(c, r) })
 
 	// ---------- R7 ----------
 	r.Rule("C03-R7", "Endpoint.Status is written only from a health-check result, a copy, or a constant non-routable status; routable status constants are produced only by the health client's status mapping", 6)
